@@ -44,6 +44,7 @@ func main() {
 	runTiny()
 	runFlipped()
 	runSymbols()
+	runGrayRows()
 	chk.Finish()
 }
 
@@ -223,6 +224,11 @@ func replay(path string) {
 	l := chk.NewLocal()
 	defer l.Merge()
 	switch raw["Part"] {
+	case "grayrow":
+		var c grayCase
+		mc.LoadReplay(path, &c)
+		fmt.Printf("replay grey row %v (%s, %s)\n", c.Row, c.Source, c.Bin)
+		grayRowOne(l, c)
 	case "bin":
 		var c bcase
 		mc.LoadReplay(path, &c)
